@@ -6,6 +6,10 @@ package c11
 import (
 	"bytes"
 	"context"
+	"crypto"
+	_ "crypto/sha1"
+	_ "crypto/sha256"
+	_ "crypto/sha512"
 	"encoding/binary"
 	"fmt"
 	"math"
@@ -25,7 +29,7 @@ func init() {
 	fw.Register(&fw.Prop{
 		ID:     "C11",
 		Builds: []string{"default", "386"}, // the 386 build runs a quarter of the random classes on a 32-bit target
-		Rule: "mine: (data of length 0..300, target, workers 1..16) with targets 3^k/len for k=0..8 exactly and +-1, +-2 ulp, 3^k/len*(1+-1e-9), targets at or below 1/len (1/len, 0.9/len, 1/(3 len), 1e-9, smallest subnormal, 0, -0, -1) and random targets up to 3^9/len; every nonce returned without error must satisfy Score(data||LE64(nonce)) >= target under the package's Score and under the model score; the process must survive (a worker-goroutine panic kills the child process and the case in flight is the witness). shared: several Mine calls with different targets run concurrently on ONE *Worker; every returned nonce must meet its own target. reuse: six consecutive calls on one long-lived Worker with the message kept in one buffer that is edited in place between the calls. score: Score(msg) for messages of length 8..400 equals 3^z/len with z from the model (BLAKE2b-256, own b1t6, own Curl-P-81). check: the bit-plane lane test (hook) on crafted 64-lane states with exactly n-1, n, n+1 trailing zero trits at lane 0, 63 and random lanes for n in 0..243 returns the first qualifying lane or 64. " +
+		Rule: "mine: (data of length 0..300, target, workers 1..16) with targets 3^k/len for k=0..8 exactly and +-1, +-2 ulp, 3^k/len*(1+-1e-9), targets at or below 1/len (1/len, 0.9/len, 1/(3 len), 1e-9, smallest subnormal, 0, -0, -1) and random targets up to 3^9/len; every nonce returned without error must satisfy Score(data||LE64(nonce)) >= target under the package's Score and under the model score; the process must survive (a worker-goroutine panic kills the child process and the case in flight is the witness). althash: the exported variable pow.Hash is set to SHA-1, SHA-224, SHA-256, SHA-512/224, SHA-512/256 or BLAKE2b-256 after start-up, then a nonce mined for 1..5 zeros must meet the target under the package's own Score (the soundness clause does not depend on the digest; the Score definition clause is judged for the default only). shared: several Mine calls with different targets run concurrently on ONE *Worker; every returned nonce must meet its own target. reuse: six consecutive calls on one long-lived Worker with the message kept in one buffer that is edited in place between the calls. score: Score(msg) for messages of length 8..400 equals 3^z/len with z from the model (BLAKE2b-256, own b1t6, own Curl-P-81). check: the bit-plane lane test (hook) on crafted 64-lane states with exactly n-1, n, n+1 trailing zero trits at lane 0, 63 and random lanes for n in 0..243 returns the first qualifying lane or 64. " +
 			"Non-trivial: mine cases with a target within 2 ulp of a 3^k/len boundary or with len*target < 1; all check cases; score cases.",
 		Assumptions: []string{"BLAKE2b-256 (x/crypto)", "float64 arithmetic of the Go runtime (3^z exact for z <= 33)", "the Curl-P-81 / b1t6 model in harness/oracle/curlp (self-tested)"},
 		SelfTest:    curlp.SelfTest,
@@ -37,6 +41,8 @@ func init() {
 			case "mine":
 				t := math.Float64frombits(fw.GetU64(p[1]))
 				return map[string]interface{}{"data": fw.Hex(p[0]), "target": fmt.Sprintf("%g (bits %016x)", t, fw.GetU64(p[1])), "target_times_len": t * float64(len(p[0])+8), "workers": p[2][0]}
+			case "althash":
+				return map[string]interface{}{"pow.Hash": fmt.Sprint(altHashes[int(p[0][0])%len(altHashes)]), "data": fw.Hex(p[1]), "required_zeros": p[2][0], "workers": p[3][0]}
 			case "score":
 				return map[string]interface{}{"msg": fw.Hex(p[0])}
 			case "reuse":
@@ -46,7 +52,7 @@ func init() {
 			}
 			return map[string]interface{}{"seed": fw.GetU64(p[0]), "n": fw.GetU32(p[1])}
 		},
-		Required:      []string{"mine returned", "mine boundary target", "mine target below 1/len", "score ok", "reuse executions", "shared-worker executions", "check ok", "nonce zeros == required", "nonce zeros > required"},
+		Required:      []string{"mine/score agree under a pow.Hash set after start-up", "mine returned", "mine boundary target", "mine target below 1/len", "score ok", "reuse executions", "shared-worker executions", "check ok", "nonce zeros == required", "nonce zeros > required"},
 		WatchdogQuick: 900,
 	})
 }
@@ -71,6 +77,8 @@ func modelScore(z, n int) (float64, bool) {
 func judge(class string, key []byte, o *fw.Obs) {
 	p := fw.Unpack(key)
 	switch class {
+	case "althash":
+		judgeAltHash(p[0][0], p[1], int(p[2][0]), int(p[3][0]), o)
 	case "shared":
 		judgeShared(fw.GetU64(p[0]), o)
 	case "reuse":
@@ -243,6 +251,49 @@ func judge(class string, key []byte, o *fw.Obs) {
 	}
 }
 
+// altHashes are digests of at most 32 bytes (digest and nonce must fit one Curl block).
+var altHashes = []crypto.Hash{crypto.SHA1, crypto.SHA224, crypto.SHA256, crypto.SHA512_224, crypto.SHA512_256, crypto.BLAKE2b_256}
+
+// judgeAltHash: the exported package variable pow.Hash is set to another digest after start-up (as its
+// documentation invites), then Mine and Score are used together. The first clause of the property does not
+// depend on the digest: a nonce returned without error must satisfy Score(data||nonce) >= target, under the
+// package's own Score with the same pow.Hash. The variable is restored afterwards (cases run one at a time).
+func judgeAltHash(hid byte, data []byte, zeros, workers int, o *fw.Obs) {
+	o.Nontrivial()
+	h := altHashes[int(hid)%len(altHashes)]
+	saved := pow.Hash
+	pow.Hash = h
+	defer func() { pow.Hash = saved }()
+	n := len(data) + 8
+	target := math.Pow(3, float64(zeros)) / float64(n)
+	ctx, cancel := context.WithTimeout(context.Background(), 300*time.Second)
+	defer cancel()
+	var nonce uint64
+	var err error
+	if !o.Try("Mine", func() { nonce, err = pow.New(workers).Mine(ctx, data, target) }) {
+		return
+	}
+	if err != nil {
+		if ctx.Err() != nil {
+			o.Inconclusive("Mine under pow.Hash = %v did not return within 300 s", h)
+			return
+		}
+		o.Fail("error", "Mine(len=%d, target=%g, workers=%d) under pow.Hash = %v returned error %v without cancellation", len(data), target, workers, h, err)
+		return
+	}
+	msg := append(append([]byte(nil), data...), make([]byte, 8)...)
+	binary.LittleEndian.PutUint64(msg[len(data):], nonce)
+	var s float64
+	if !o.Try("Score", func() { s = pow.Score(msg) }) {
+		return
+	}
+	if !(s >= target) {
+		o.Fail("score", "with pow.Hash = %v (set after start-up), Mine(len(data)=%d, target=%g, workers=%d) returned nonce %d but Score(data||nonce) = %g is below the target", h, len(data), target, workers, nonce, s)
+		return
+	}
+	o.Count("mine/score agree under a pow.Hash set after start-up")
+}
+
 // judgeReuse: one long-lived *Worker is called again and again, and the caller keeps its message in ONE
 // buffer that it edits in place between the calls (same length, same backing array, sometimes unchanged
 // content). Every returned nonce must meet the target for the bytes the buffer held at the time of the call.
@@ -388,6 +439,9 @@ func ulps(f float64, d int64) float64 {
 }
 
 func gen(g *fw.Gen) {
+	for n := g.ShareOf(48, 2400); n > 0; n-- {
+		g.Emit("althash", fw.Pack([]byte{byte(g.Rng.Intn(len(altHashes)))}, g.Bytes(g.Rng.Intn(80)), []byte{byte(1 + g.Rng.Intn(5))}, []byte{byte(1 + g.Rng.Intn(4))}))
+	}
 	emitMine := func(data []byte, t float64, w int) {
 		g.Emit("mine", fw.Pack(data, fw.U64(math.Float64bits(t)), []byte{byte(w)}))
 	}
